@@ -14,7 +14,7 @@ from __future__ import annotations
 import ast
 from typing import Dict, List, Optional, Tuple
 
-from ..index import AnalysisError, FunctionInfo, Index, full, norm, own_nodes
+from ..index import AnalysisError, FunctionInfo, Index, full, norm, own_nodes, resolve_local
 from ..report import Report
 from . import C05
 import sympy as sp
@@ -439,7 +439,8 @@ def check_fci_sector(idx: Index, rep: Report):
             if not (f.startswith("self.cisolver.") and c.func.attr in ("kernel", "make_rdm1", "make_rdm2", "make_rdm12", "make_rdm1s", "make_rdm12s") or f.endswith("mcscf.CASSCF") or f.endswith("CASCI")):
                 continue
             # the electron argument: the one whose text mentions nelec / n_alpha / n_beta
-            cand = [a for a in list(c.args) + [k.value for k in c.keywords] if any(t in norm(a) for t in ("nelec", "n_alpha", "n_beta", "n_electrons"))]
+            cand = [resolve_local(m.node, a) for a in list(c.args) + [k.value for k in c.keywords]]
+            cand = [a for a in cand if any(t in norm(a) for t in ("nelec", "n_alpha", "n_beta", "n_electrons"))]
             if len(cand) != 1:
                 raise AnalysisError(f"{m.ref}: electron argument of {norm(c)[:60]} not identified")
             a = cand[0]
